@@ -21,6 +21,19 @@ def tree_digest(entries, skip_dir_mtime=True, only_prefix=None, skip_mtime=False
     return h.hexdigest()[:16]
 
 
+def sparse_applicable(case, inv, plan=None):
+    """C11's precondition "a file system that supports hole detection": SEEK_DATA/SEEK_HOLE is native on tmpfs (parfile),
+    extent mapping exists only when the simulated kernel emulates FIEMAP (parblock)"""
+    drv = (plan or {}).get("inv_override", {}).get("driver") or inv.get("driver", "parfile")
+    k = dict(case.get("kernel", {}))
+    k.update((plan or {}).get("kernel", {}))
+    if k.get("ficlone") == "emulate":
+        return False
+    if drv == "parblock":
+        return k.get("fiemap") == "emulate"
+    return True
+
+
 class SCheck(Check):
     N = {"quick": 100, "thorough": 2000}
     K = {"quick": 4, "thorough": 16}
@@ -41,7 +54,7 @@ class SCheck(Check):
         inv = case["steps"][step_i]["inv"]
         f = oracle.termination_findings(res)
         if verdict is not None:
-            f += oracle.check_tree(res, verdict, inv, case.get("umask", 0o022), t0)
+            f += oracle.check_tree(res, verdict, inv, case.get("umask", 0o022), t0, sparse_ok=sparse_applicable(case, inv, plan))
         return f
 
     def items(self, tier, seed):
